@@ -169,3 +169,123 @@ Section Parent.
     unread s = [] -> p_closed s = false -> p_dead s = false -> snd (pstep g s (PCall e)) = OVal (g e).
   Proof. intros H1 H2 H3. simpl. rewrite H1, H2, H3. reflexivity. Qed.
 End Parent.
+
+(* ---------- C06: the stream after a crash anywhere in the loop ---------- *)
+Section Crash.
+  Variable f : list elem -> kw -> Z.
+  Variable mutates : bool.
+
+  Lemma results_number k rs : results_of (number k rs) = rs.
+  Proof. revert k; induction rs as [|r rs IH]; intros k; simpl; [reflexivity|]. now rewrite IH. Qed.
+
+  Lemma results_app a b : results_of (a ++ b) = results_of a ++ results_of b.
+  Proof. unfold results_of. apply flat_map_app. Qed.
+
+  Lemma ends_app a b : ends_of (a ++ b) = (ends_of a + ends_of b)%nat.
+  Proof. unfold ends_of. rewrite filter_app, app_length. reflexivity. Qed.
+
+  Lemma ends_number k rs : ends_of (number k rs) = O.
+  Proof. revert k; induction rs as [|r rs IH]; intros k; simpl; [reflexivity|apply IH]. Qed.
+
+  (* state after j complete iterations over inputs e1..ej *)
+  Definition after (s : cst) (done : list enq) (rest : list (option enq)) : cst :=
+    mkC (dargs s) (dtuple s) (dkw s) (counter s + length done)%nat
+        (outq s ++ number (counter s) (map (call f s) done)) rest (cleaned s) (res_closed s).
+
+  Lemma after_cons s e done rest mid :
+    after (mkC (dargs s) (dtuple s) (dkw s) (S (counter s)) (outq s ++ [MRes (S (counter s)) (call f s e)])
+               mid (cleaned s) (res_closed s)) done rest
+    = after s (e :: done) rest.
+  Proof.
+    unfold after, call. cbn [dargs dtuple dkw counter outq inbox cleaned res_closed length map number].
+    rewrite <- app_assoc. cbn [app].
+    replace (S (counter s) + length done)%nat with (counter s + S (length done))%nat by lia. reflexivity.
+  Qed.
+
+  Lemma run_crash_iters : forall done s rest k i half,
+    inbox s = map Some done ++ rest -> k = length done ->
+    run_crash f mutates sp0 prog0 k i half s = run_crash f mutates sp0 prog0 O i half (after s done rest).
+  Proof.
+    induction done as [|e done IH]; intros s rest k i half Hin ->.
+    - cbn [length]. f_equal. destruct s as [da dt dk c o ib cl rc]. cbn [inbox map app] in Hin. subst ib.
+      unfold after. cbn. rewrite app_nil_r, Nat.add_0_r. reflexivity.
+    - cbn [length run_crash]. rewrite (iter_some f mutates s e (map Some done ++ rest) Hin).
+      rewrite (IH _ rest (length done) i half) by reflexivity.
+      rewrite after_cons. reflexivity.
+  Qed.
+
+  (* the crashing iteration: whatever the instruction index, at most the current result is added *)
+  Lemma crash_iteration s e rest i half :
+    inbox s = Some e :: rest ->
+    exists s', fst (run_crash f mutates sp0 prog0 O i half s) = s' /\
+      (outq s' = outq s \/ outq s' = outq s ++ [MRes (S (counter s)) (call f s e)]) /\
+      (counter s' = counter s \/ counter s' = S (counter s)) /\ cleaned s' = cleaned s.
+  Proof.
+    intros Hin. eexists. split; [reflexivity|].
+    unfold prog0, sp0.
+    do 10 (destruct i as [|i]; [cbn; rewrite ?Hin; cbn; rewrite ?andb_false_r; cbn; destruct half; cbn; auto|]).
+    cbn. rewrite Hin. cbn. rewrite andb_false_r. cbn. auto.
+  Qed.
+End Crash.
+
+Section CrashTheorem.
+  Variable f : list elem -> kw -> Z.
+  Variable mutates : bool.
+
+  Definition good_cleanup (cp : list cinstr) : Prop :=
+    forall s, cleaned s = false -> outq (cleanup cp s) = outq s ++ [MEnd (counter s)].
+
+  Lemma good_cleanup_thread : good_cleanup cleanup_thread.
+  Proof. intros s H. rewrite (proj1 tie_cleanup). cbn. rewrite H. reflexivity. Qed.
+  Lemma good_cleanup_process : good_cleanup cleanup_process.
+  Proof. intros s H. rewrite (proj1 (proj2 tie_cleanup)). cbn. rewrite H. reflexivity. Qed.
+  Lemma good_cleanup_remote : good_cleanup cleanup_remote.
+  Proof. intros s H. rewrite (proj2 (proj2 tie_cleanup)). reflexivity. Qed.
+
+  Definition s_init (d : list Z) (tuple : bool) (dk : list (Z * Z)) (ib : list (option enq)) : cst :=
+    mkC (map fresh d) tuple (map (fun p => (fst p, fresh (snd p))) dk) O [] ib false false.
+
+  Lemma call_expected d tuple dk ib es :
+    map (call f (s_init d tuple dk ib)) es = expected f d dk es.
+  Proof. reflexivity. Qed.
+
+  (* The stream after a graceful terminate or a kill landing after [i] instructions (or inside
+     _send_result) of the iteration that follows [done]: the results are a prefix of the expected
+     sequence - the first |done| of them, or one more - in order; after a terminate exactly one
+     end marker follows, after a kill nothing (the pipe's EOF ends the stream). *)
+  Theorem crash_stream_is_prefix cp d tuple dk done e rest i half a :
+    good_cleanup cp ->
+    let es := done ++ e :: rest in
+    let out := stream_after f mutates sp0 prog0 cp d tuple dk es (length done) i half a in
+    (results_of out = firstn (length done) (expected f d dk es)
+     \/ results_of out = firstn (S (length done)) (expected f d dk es))
+    /\ ends_of out = match a with CWTE => 1%nat | CKill => O end.
+  Proof.
+    intros Hcp es out. unfold out, stream_after. fold (s_init d tuple dk (map Some es)).
+    assert (Hin : inbox (s_init d tuple dk (map Some es)) = map Some done ++ map Some (e :: rest)).
+    { unfold es. cbn [inbox s_init]. now rewrite map_app. }
+    rewrite (run_crash_iters f mutates done _ (map Some (e :: rest)) (length done) i half Hin eq_refl).
+    set (s1 := after f (s_init d tuple dk (map Some es)) done (map Some (e :: rest))).
+    destruct (crash_iteration f mutates s1 e (map Some rest) i half eq_refl) as [s' [Hs' [Ho [Hc Hcl]]]].
+    destruct (run_crash f mutates sp0 prog0 0 i half s1) as [s2 b]. cbn [fst] in Hs'. subst s2.
+    assert (Hexp : expected f d dk es = map (call f (s_init d tuple dk (map Some es))) done
+                   ++ call f (s_init d tuple dk (map Some es)) e :: map (call f (s_init d tuple dk (map Some es))) rest).
+    { rewrite <- call_expected with (tuple := tuple) (ib := map Some es). unfold es. rewrite map_app. reflexivity. }
+    assert (Ho1 : outq s1 = number O (map (call f (s_init d tuple dk (map Some es))) done)) by reflexivity.
+    assert (Hcall : call f s1 e = call f (s_init d tuple dk (map Some es)) e) by reflexivity.
+    assert (Hlen : length (map (call f (s_init d tuple dk (map Some es))) done) = length done) by apply map_length.
+    assert (Hcl1 : cleaned s' = false) by (rewrite Hcl; reflexivity).
+    assert (Hres : results_of (outq s') = firstn (length done) (expected f d dk es)
+                   \/ results_of (outq s') = firstn (S (length done)) (expected f d dk es)).
+    { destruct Ho as [Ho|Ho]; rewrite Ho, ?results_app, Ho1, results_number, Hexp.
+      - left. rewrite firstn_app, Hlen, Nat.sub_diag, firstn_all2 by lia. simpl. now rewrite app_nil_r.
+      - right. rewrite Hcall. simpl results_of.
+        rewrite firstn_app, Hlen, firstn_all2 by lia.
+        replace (S (length done) - length done)%nat with 1%nat by lia. reflexivity. }
+    assert (Hends : ends_of (outq s') = O).
+    { destruct Ho as [Ho|Ho]; rewrite Ho, ?ends_app, Ho1, ends_number; reflexivity. }
+    destruct a.
+    - rewrite (Hcp s' Hcl1), results_app, ends_app, Hends. simpl. rewrite app_nil_r. split; [exact Hres|reflexivity].
+    - split; [exact Hres|exact Hends].
+  Qed.
+End CrashTheorem.
